@@ -873,6 +873,9 @@ func c14Report(c *rep.Ctx, e *c14Eng) {
 				construct += ctx + "|"
 			}
 			construct += s.shape
+			if s.byPar != nil && s.reach {
+				s.ok, s.msg = e.paramIndexOK(a, s)
+			}
 			if !s.reach {
 				c.CheckTrivial("riskop", construct, s.pos, true, s.msg)
 				continue
